@@ -418,7 +418,7 @@ pub fn run_check(tier: &str) -> i32 {
         property: "C20",
         worker: "e2-c20",
         quick_runs: 600,
-        thorough_runs: 20_000,
+        thorough_runs: 40_000,
         level: "exploration",
         rule: "each scenario (seeded E1 history split into builds at the restores, a detect plan, launch/store/SBOM results) is executed in 3 (thorough: 4) fresh sequences of real buildpack processes under different simulator-chosen hash keys, readdir permutations, absolute locations and clock offsets; the normalised <layers> tree after every build and the plan file must be byte-identical; distinct = distinct op-kind sequences; non-trivial = scenarios that put at least two entries into a map-backed structure (exec.d set, env entries, metadata table)",
         assumptions: &[
